@@ -35,74 +35,176 @@ def _fields_read(t, obj) -> set:
     return {x[2] for x in subterms(t) if op(x) == "attr" and x[1] == obj}
 
 
+def _truth_of(t, asg):
+    """Truth value of a returned term under an assignment of canonical atoms; None if it is not a formula over them."""
+    from ..rules import formula_atoms, formula_eval
+
+    if is_const(t):
+        return bool(t[1])
+    if "NotImplemented" in show(t) and op(t) not in ("and", "or", "not", "cmp", "call"):
+        return False  # Python falls back to identity: different objects are unequal
+    try:
+        if any(a not in asg for a in formula_atoms(t)):
+            return None
+        return formula_eval(t, asg)
+    except KeyError:
+        return None
+
+
+def _function_rows(s, extra_terms=()):
+    """(atoms, rows): every assignment of the atoms tested on the top-level paths (and in the returned
+    formulas) with the paths it selects."""
+    from ..rules import formula_atoms, path_atoms, truth_table
+
+    atoms = path_atoms(s.paths)
+    for p in s.paths:
+        if p.out is not None and p.out[0] == "return" and op(p.out[1]) in ("and", "or", "not", "cmp", "call", "truth"):
+            for a in formula_atoms(p.out[1]):
+                if a not in atoms:
+                    atoms.append(a)
+    return truth_table(s.paths, atoms)
+
+
+def _check_ne(cx: Cx, ob: Ob, ci_, ne) -> None:
+    """A hand-written __ne__ must be the negation of __eq__ (NotImplemented passed through)."""
+    ns = cx.summary(ne, ob.id)
+    me_, ot_ = ("param", ne.params[0].name), ("param", ne.params[1].name)
+    EQS = (("call", ("attr", me_, "__eq__"), (ot_,), ()), ("cmp", "==", me_, ot_), ("cmp", "==", ("attr", me_, "pair"), ("attr", ot_, "pair")))
+    atoms, rows = _function_rows(ns)
+    bad = rows is None
+    role = {}
+    for a in atoms:
+        if a in EQS:
+            role[a] = "E"
+        elif op(a) == "cmp" and a[1] in ("is", "==") and a[2] in EQS and "NotImplemented" in show(a[3]):
+            role[a] = "N"
+        else:
+            bad = True
+    if not bad and not any(r == "E" for r in role.values()):
+        bad = True
+    if not bad:
+        for asg, hit in rows:
+            es = {asg[a] for a in atoms if role[a] == "E"}
+            n = any(asg[a] for a in atoms if role[a] == "N")
+            if len(es) != 1:
+                continue
+            e = next(iter(es))
+            for p in hit:
+                if p.out is None or p.out[0] != "return":
+                    bad = True
+                    continue
+                t = p.out[1]
+                if n:
+                    if "NotImplemented" not in show(t):
+                        bad = True
+                    continue
+                v = _truth_of(t, asg)
+                if v is None or v != (not e):
+                    bad = True
+    if bad:
+        ob.violate(
+            ne.qualname,
+            ne.where,
+            f"{ci_.name} defines its own __ne__ that is not the negation of __eq__: `!=` and `==` can both be false (or both true) for the same pair, so equality no longer depends on (prefix, identifier) alone",
+            witness="Reference('a','1') != Reference('a','2') is False while == is False too",
+            detail="ne-not-negation",
+        )
+
+
+def _check_eq(cx: Cx, ob: Ob, eq, want: set) -> None:
+    """__eq__ as a boolean function of its atomic tests: true exactly when the other object is a Reference and
+    both fields are equal - however the tests are nested, merged, negated or returned."""
+    se = cx.summary(eq, ob.id)
+    me, other = ("param", eq.params[0].name), ("param", eq.params[1].name)
+    for t, ctx in se.returns():
+        ob.site(f"{eq.where} {eq.qualname}", show(t)[:90])
+    atoms, rows = _function_rows(se)
+    if rows is None:
+        ob.undecide("__eq__: too many distinct tests")
+        return
+    role: dict = {}
+    for a in atoms:
+        if op(a) == "call" and callee_name(a) == "isinstance" and a[2][:1] == (other,):
+            role[a] = ("I", None)
+            if "Reference" not in show(a[2][1]):
+                ob.violate(eq.qualname, eq.where, f"__eq__ tests isinstance against `{show(a[2][1])}`; equality must hold across Reference, NamableReference and NamedReference", detail="isinstance")
+        elif op(a) == "cmp" and a[1] == "==" and (_fields_read(a[2], me) | _fields_read(a[2], other) | _fields_read(a[3], me) | _fields_read(a[3], other)):
+            fa, fb = _fields_read(a[2], me) | _fields_read(a[2], other), _fields_read(a[3], me) | _fields_read(a[3], other)
+            if fa != fb:
+                ob.violate(eq.qualname, eq.where, f"__eq__ compares `{show(a[2])[:30]}` with `{show(a[3])[:30]}`", detail="mismatched-compare")
+            fs = set()
+            for f in fa | fb:
+                fs |= {"prefix", "identifier"} if f == "pair" else {f}
+            role[a] = ("F", frozenset(fs))
+        elif op(a) == "cmp" and a[1] == "is" and {a[2], a[3]} == {me, other}:
+            role[a] = ("S", None)
+        else:
+            role[a] = ("?", None)
+            ob.undecide(f"__eq__ test `{show(a)[:50]}` not recognised")
+    if ob.undecided:
+        return
+    covered = set().union(*[r[1] for r in role.values() if r[0] == "F"]) if any(r[0] == "F" for r in role.values()) else set()
+    has_inst = any(r[0] == "I" for r in role.values())
+    saw_main = False
+    flagged = set()
+    for asg, hit in rows:
+        same = any(asg[a] for a in atoms if role[a][0] == "S")
+        inst = all(asg[a] for a in atoms if role[a][0] == "I")
+        if same and not (inst and all(asg[a] for a in atoms if role[a][0] == "F")):
+            continue  # the same object is a Reference equal to itself
+        fields_eq = {f: all(asg[a] for a in atoms if role[a][0] == "F" and f in role[a][1]) for f in covered}
+        for p in hit:
+            if p.out is None or p.out[0] != "return":
+                if p.out is not None and p.out[0] == "raise":
+                    continue
+                ob.undecide("__eq__ has a path without a return value")
+                continue
+            got = _truth_of(p.out[1], asg)
+            if got is None:
+                ob.undecide(f"__eq__ returns `{show(p.out[1])[:50]}`")
+                continue
+            saw_main = saw_main or got
+            expected = inst and all(fields_eq.get(f, True) for f in want)
+            if got and not inst and "non-reference" not in flagged:
+                flagged.add("non-reference")
+                ob.violate(eq.qualname, eq.where, "__eq__ can hold for objects that are not References", detail="non-reference")
+            elif got and inst and not expected:
+                bad = sorted(f for f in want if not fields_eq.get(f, True))
+                key = "eq-missing:" + "+".join(bad)
+                if key not in flagged:
+                    flagged.add(key)
+                    ob.violate(eq.qualname, eq.where, f"__eq__ can hold although {bad} differ", detail=key)
+            elif not got and expected:
+                extra = sorted(f for f in covered - want if not fields_eq.get(f, True))
+                key = "eq-extra:" + "+".join(extra) if extra else "eq-not-fields"
+                if key not in flagged:
+                    flagged.add(key)
+                    ob.violate(eq.qualname, eq.where, f"__eq__ can fail for two References with equal prefix and identifier" + (f": it also compares {extra} - a name must never matter" if extra else ""), detail=key)
+    if not saw_main:
+        ob.undecide("__eq__: no comparing return found")
+    if not has_inst:
+        ob.violate(eq.qualname, eq.where, "__eq__ does not require the other object to be a Reference", detail="no-isinstance")
+    missing, extra = want - covered, covered - want
+    if missing and not any(k.startswith("eq-missing") for k in flagged):
+        ob.violate(eq.qualname, eq.where, f"__eq__ does not compare {sorted(missing)}", detail="eq-missing:" + "+".join(sorted(missing)))
+    if extra and not any(k.startswith("eq-extra") for k in flagged):
+        ob.violate(eq.qualname, eq.where, f"__eq__ also compares {sorted(extra)}: a name must never matter", detail="eq-extra:" + "+".join(sorted(extra)))
+
+
 @obligation("C15-D1", "eq/hash agreement: Reference.__eq__ compares exactly {prefix, identifier} (plus isinstance(other, Reference)), __hash__ hashes exactly the same fields; no subclass overrides __eq__/__hash__/__lt__", floor=3)
 def d1(cx: Cx, ob: Ob) -> None:
     base = cx.model.cls(REF, ob.id)
     for ci_ in ref_classes(cx, ob):
         ne = ci_.methods.get("__ne__")
         if ne is not None:
-            ns = cx.summary(ne, ob.id)
-            me_, ot_ = ("param", ne.params[0].name), ("param", ne.params[1].name)
-            okne = all(t in (("cmp", "!=", me_, ot_), ("not", ("cmp", "==", me_, ot_)), ("not", ("call", ("attr", me_, "__eq__"), (ot_,), ())), ("cmp", "!=", ("attr", me_, "pair"), ("attr", ot_, "pair"))) for t, _ in ns.returns())
-            if not okne:
-                ob.violate(
-                    ne.qualname,
-                    ne.where,
-                    f"{ci_.name} defines its own __ne__ that is not the negation of __eq__: `!=` and `==` can both be false (or both true) for the same pair, so equality no longer depends on (prefix, identifier) alone",
-                    witness="Reference('a','1') != Reference('a','2') is False while == is False too",
-                    detail="ne-not-negation",
-                )
+            _check_ne(cx, ob, ci_, ne)
     eq = base.methods.get("__eq__")
     hs = base.methods.get("__hash__")
     if eq is None or hs is None:
         ob.violate(REF, f"src/curies/{base.module.relpath}:{base.node.lineno}", "Reference does not define both __eq__ and __hash__ (pydantic's defaults compare all fields including subclass names)", detail="missing-dunder")
         return
     want = {"prefix", "identifier"}
-    se = cx.summary(eq, ob.id)
-    me, other = ("param", eq.params[0].name), ("param", eq.params[1].name)
-    saw_main = False
-    for t, ctx in se.returns():
-        ob.site(f"{eq.where} {eq.qualname}", show(t)[:90])
-        # isinstance(other, Reference) may be a conjunct of the result or a guard on the way to it
-        guard_inst = [g for g in ctx.guards if g.kind == "guard" and op(g.a) == "call" and callee_name(g.a) == "isinstance" and g.a[2][0] == other]
-        if any(g.b is False for g in guard_inst):
-            if not is_const(t, False) and op(t) != "name":
-                ob.violate(eq.qualname, eq.where, f"__eq__ returns `{show(t)[:30]}` for objects that are not References", detail="non-reference")
-            continue
-        saw_main = True
-        parts = t[1] if op(t) == "and" else (t,)
-        pairs = set()
-        inst = any(g.b is True and "Reference" in show(g.a[2][1]) for g in guard_inst)
-        for g in guard_inst:
-            if g.b is True and "Reference" not in show(g.a[2][1]):
-                ob.violate(eq.qualname, eq.where, f"__eq__ tests isinstance against `{show(g.a[2][1])}`", detail="isinstance")
-                inst = True
-        for p in parts:
-            if op(p) == "call" and callee_name(p) == "isinstance" and p[2][0] == other:
-                inst = "Reference" in show(p[2][1])
-                if not inst:
-                    ob.violate(eq.qualname, eq.where, f"__eq__ tests isinstance against `{show(p[2][1])}`; equality must hold across Reference, NamableReference and NamedReference", detail="isinstance")
-                    inst = True
-            elif op(p) == "cmp" and p[1] == "==":
-                a, b = p[2], p[3]
-                fa, fb = _fields_read(a, me) | _fields_read(a, other), _fields_read(b, me) | _fields_read(b, other)
-                if fa != fb:
-                    ob.violate(eq.qualname, eq.where, f"__eq__ compares `{show(a)[:30]}` with `{show(b)[:30]}`", detail="mismatched-compare")
-                pairs |= fa
-            elif op(p) == "cmp" and p[1] in ("is",):
-                pass
-            else:
-                ob.undecide(f"__eq__ conjunct `{show(p)[:50]}` not recognised")
-        if not inst:
-            ob.violate(eq.qualname, eq.where, "__eq__ does not require the other object to be a Reference", detail="no-isinstance")
-        if pairs != want:
-            extra, missing = pairs - want, want - pairs
-            if extra:
-                ob.violate(eq.qualname, eq.where, f"__eq__ also compares {sorted(extra)}: a name must never matter", detail="eq-extra:" + "+".join(sorted(extra)))
-            if missing:
-                ob.violate(eq.qualname, eq.where, f"__eq__ does not compare {sorted(missing)}", detail="eq-missing:" + "+".join(sorted(missing)))
-    if not saw_main:
-        ob.undecide("__eq__: no comparing return found")
+    _check_eq(cx, ob, eq, want)
     sh = cx.summary(hs, ob.id)
     hme = ("param", hs.params[0].name)
     for t, ctx in sh.returns():
